@@ -60,7 +60,8 @@ def main():
                 print("note: known finding %s does not reproduce any more (%s)" % (k["id"], r.get("error", "behaves as the property demands")))
                 known_status.append({"id": k["id"], "still_present": False})
             # the exclusion predicate stays assumed either way (it only narrows what is searched for this harness)
-            excl.setdefault(k["harness"], []).append(k["exclude"])
+            for hn in (k["applies_to"] if "applies_to" in k else [k["harness"]]):
+                excl.setdefault(hn, []).append(k["exclude"])
 
         # 2. run the harnesses
         jobs = mod.jobs(a.tier)
@@ -68,8 +69,9 @@ def main():
             pre = tuple(a.only.split(","))
             jobs = [j for j in jobs if j.name.startswith(pre)]
         for j in jobs:
-            if j.harness in excl:
-                j.kwargs["exclude"] = excl[j.harness]
+            ex_keys = excl.get(j.harness, []) + excl.get("*", [])
+            if ex_keys:
+                j.kwargs["exclude"] = ex_keys
         print("%s tier=%s: %d jobs on %d processes" % (pid, a.tier, len(jobs), a.jobs))
         results = core.run_jobs(modname, jobs, tmpdir, nproc=a.jobs)
 
